@@ -39,9 +39,11 @@ TRUSTED = [
     "order depends on id() among ties and belongs to C09/C14)",
 ]
 ASSUMPTIONS = [
-    "CAS inside wf_xmib: slots hold values of the declared kind, arrays have a "
-    "list in `elements`, inline lists are tail-acyclic, annotations carry the sofa of a view of this CAS and valid "
-    "offsets, ids differ from sofa ids and from 0, user features are not called sofa/xmiID/elements/head/tail",
+    "input CAS inside wf_inb (Xmi.v; nothing about the written set is assumed, that part is derived from the traversal): "
+    "references live, arrays have a list in `elements`, slots hold values of the declared kind, inline lists are "
+    "tail-acyclic, annotations carry the sofa of a view of this CAS and valid offsets, explicit ids distinct, not 0, below "
+    "the id generator and apart from sofa ids, sofa arrays are primitive arrays, only AnnotationBase subtypes have a feature "
+    "called sofa, type names round-trip through the namespace mapping",
     "ranges that are user subtypes of primitives other than uima.cas.String are outside the scope",
 ]
 
@@ -131,8 +133,11 @@ def extra_checks(ctx):
 MANIFEST = {
     "level_text": "Machine-checked proof (Coq 8.16) about an executable model of the XMI writer (worklist of _find_all_fs, "
                   "per-feature-kind encoders in the writer's branch order, offset mapping, namespace/prefix allocation, "
-                  "sofas, views) that the document it writes, read by a declarative denotation of the UIMA XMI format "
-                  "(the independent reader, in Coq), is the canonical content of the CAS; the model is tied to /repo on "
+                  "sofas, views) that for every well-formed input CAS the document it writes is closed (doc_ok_xmi), "
+                  "complete (every structure reachable through the declarative successor relation is present exactly "
+                  "once) and, read by a declarative denotation of the UIMA XMI format (the independent reader, in Coq), "
+                  "is the canonical content of the CAS; the facts about the written set are derived from the reachability "
+                  "theorems, the premise speaks about the input only; the model is tied to /repo on "
                   "every run: the bytes of to_xmi() are parsed with xml.etree and, inside Coq, checked for closedness, "
                   "denoted and compared with the content observed from the in-memory CAS and with the model writer's document.",
     "level_note": "XMI half of C04 (the JSON half is added by the JSON builder). Trusted: Coq kernel + vm_compute; models "
